@@ -85,15 +85,18 @@ fn try_null_datalink(packet: &[u8]) -> Option<(IpAddr, IpAddr, u16, u16)> {
     // AF_INET = 2, AF_INET6 = 30 (on most systems)
     let family = u32::from_ne_bytes([packet[0], packet[1], packet[2], packet[3]]);
 
-    // The address family value differs between systems (AF_INET6 is 30, 28, 24 or 10) and
-    // packet_parser accepts the 0x1e header for IPv4 as well as IPv6 payloads, so let the IP
-    // version nibble of the payload decide, exactly as the parser does
-    match family {
-        2 | 30 | 28 => match packet.get(4).map(|byte| byte >> 4) {
-            Some(4) => extract_ipv4_info(&packet[4..]),
-            Some(6) => extract_ipv6_info(&packet[4..]),
-            _ => None,
-        },
+    // The address family value differs between systems (AF_INET6 is 30, 28, 24 or 10), and
+    // packet_parser recognises NULL framing by its first two bytes only (0x1e 0x00) and then
+    // accepts IPv4 as well as IPv6 payloads. Accept the same frames and let the IP version
+    // nibble of the payload decide, exactly as the parser does
+    let parser_signature = packet[0] == 0x1e && packet[1] == 0x00;
+    if !parser_signature && !matches!(family, 2 | 30 | 28) {
+        return None;
+    }
+
+    match packet.get(4).map(|byte| byte >> 4) {
+        Some(4) => extract_ipv4_info(&packet[4..]),
+        Some(6) => extract_ipv6_info(&packet[4..]),
         _ => None,
     }
 }
